@@ -24,6 +24,10 @@ import (
 var defaultErrorHandler = builtin(defaultErrorHandlerFn)
 
 func defaultErrorHandlerFn(intp *Interpreter) error {
+	if len(intp.errors) == 0 {
+		// the handler was called directly, outside of error handling
+		return intp.e(eUndefinedresult, "error handler called without an error")
+	}
 	return intp.errors[len(intp.errors)-1]
 }
 
